@@ -845,12 +845,25 @@ impl<'a> ZipFile<'a> {
         self.data.encrypted
     }
 
-    pub(crate) fn get_raw_reader(&mut self) -> &mut dyn Read {
-        if let ZipFileReader::NoReader = self.reader {
-            let crypto_reader = self.crypto_reader.take().expect("Invalid reader state");
-            self.reader = ZipFileReader::Raw(crypto_reader.into_inner())
+    /// The reader over the entry's compressed bytes. A decoder that is already installed (a
+    /// streamed entry) is taken off again; once any of the bytes has been consumed they cannot
+    /// be handed out any more, which is an error.
+    pub(crate) fn get_raw_reader(&mut self) -> ZipResult<&mut dyn Read> {
+        let raw = match ::std::mem::replace(&mut self.reader, ZipFileReader::NoReader) {
+            ZipFileReader::NoReader => {
+                let crypto_reader = self.crypto_reader.take().expect("Invalid reader state");
+                crypto_reader.into_inner()
+            }
+            reader => reader.into_inner(),
+        };
+        let untouched = raw.limit() == self.data.compressed_size;
+        self.reader = ZipFileReader::Raw(raw);
+        if !untouched {
+            return Err(ZipError::UnsupportedArchive(
+                "Raw copy needs an entry that has not been read from",
+            ));
         }
-        &mut self.reader
+        Ok(&mut self.reader)
     }
 
     /// Get the version of the file
